@@ -1777,7 +1777,11 @@ def unit_topn(inj, scratch):
     s = src('src/util/top_n.rs', scratch)
     st = s.item('struct', 'TopN')
     im = s.item('impl', 'TopN')
-    body = s.text[st['start']:st['end']] + '\n\n' + s.text[im['start']:im['end']]
+    # the file's own `use` lines (other than the BTreeMap import, which the stand-in replaces)
+    uses = [m.group(0) for m in re.finditer(r'^use\s+[^;]+;', s.mask[:st['start']], flags=re.M)]
+    uses = [s.text[m.start():m.end()] for m in re.finditer(r'^use\s+[^;]+;', s.mask[:st['start']], flags=re.M)]
+    uses = [u for u in uses if 'BTreeMap' not in u]
+    body = '\n'.join(uses) + '\n' + s.text[st['start']:st['end']] + '\n\n' + s.text[im['start']:im['end']]
     text = 'pub mod topn {\n' + H('frag_topn_prelude.rs') + '\n// ---- verbatim: struct TopN and impl TopN from src/util/top_n.rs ----\n' + body + '\n' + H('frag_topn.kani.rs') + '\n}\n'
     inj.new_file(FRAG_FILE, text)
     r, d = frag_record('topn::TopN', 'src/util/top_n.rs', 'struct TopN + impl<K: Ord, V> TopN<K, V> (whole items, verbatim)', body, body,
